@@ -215,3 +215,55 @@ def triple_sample(r, atoms, n):
                 f = r.choice(B)(f, g) if r.random() < 0.5 else r.choice(B)(g, f)
         out.append(f)
     return out
+
+# --------------------------------------------------------------------------- programs with head formulas (C04)
+
+def gen_head_prog(r, atoms, depth=3):
+    prog = []
+    for _ in range(r.randint(1, 2)):
+        body = []
+        if r.random() < 0.3:
+            body.append(("atom", "pos", r.choice(atoms), 0))
+        if r.random() < 0.15:
+            body.append(("atom", "not", r.choice(atoms), 0))
+        prog.append(("rule", r.choice(["initial", "always", "dynamic"]), ("tel", gen_hform(r, r.randint(1, depth), atoms)), tuple(body)))
+    if r.random() < 0.5:
+        prog.append(("rule", r.choice(["initial", "always", "dynamic"]), ("choice",) + tuple(r.sample(atoms, r.randint(1, len(atoms)))), ()))
+    if r.random() < 0.4:
+        prog.append(("rule", r.choice(["initial", "always", "dynamic"]), ("atom", r.choice(atoms), 0),
+                     tuple([("atom", "pos", r.choice(atoms), 0)] if r.random() < .6 else [])))
+    return prog
+
+def head_unary_shapes():
+    sh = [lambda f: ("~", f)]
+    for n in (0, 1, 2):
+        for w in (False, True):
+            sh.append(lambda f, n=n, w=w: ("next", n, w, f))
+    for t in ("evF", "alF", "fin"):
+        sh.append(lambda f, t=t: (t, f))
+    return sh
+
+def head_binary_shapes():
+    sh = [lambda f, g: ("b", "and", f, g), lambda f, g: ("b", "or", f, g), lambda f, g: ("unt", f, g), lambda f, g: ("rel", f, g)]
+    for w in (False, True):
+        sh.append(lambda f, g, w=w: ("seqn", w, f, g))
+    return sh
+
+def head_pair_grid(atoms):
+    a, b = ("a", atoms[0]), ("a", atoms[1 % len(atoms)])
+    leaves = [a, ("k", "true"), ("k", "false"), ("k", "initial"), ("k", "final")]
+    U, B = head_unary_shapes(), head_binary_shapes()
+    out = []
+    for u1 in U:
+        for lf in leaves:
+            out.append(u1(lf))
+        for u2 in U:
+            out.append(u1(u2(a)))
+        for b2 in B:
+            out.append(u1(b2(a, b)))
+    for b1 in B:
+        for lf in leaves[1:]:
+            out.append(b1(a, lf)); out.append(b1(lf, a))
+        for u2 in U:
+            out.append(b1(u2(a), b)); out.append(b1(a, u2(b)))
+    return out
